@@ -136,6 +136,15 @@ def checkRetry (j : Json) : Except String Verdict := do
     if idx = registerAt && idx > 0 then
       -- a container created after updates: the registration replays the cached tables (fact `replayOnRegister`)
       st := if F.replayOnRegister then { (retryHandler retryInit cached) with cache := cached } else { retryInit with cache := cached }
+    -- route tables the cleaner evicted before this update: they leave the manager's cache (the handlers' view of it too);
+    -- their policies go with the next run of the handlers, i.e. with this update
+    let evs : List String := match (jArr j "evictedBefore").toOption.bind (fun a => a[idx]?) with
+      | some e => (e.getArr?.toOption.getD #[]).toList.filterMap (fun x => x.getStr?.toOption)
+      | none => []
+    for tn in evs do
+      cached := cached.filter (fun e => e.1 ≠ tn)
+      tables := tables.filter (fun e => e.1 ≠ tn)
+      st := { st with cache := st.cache.filter (fun e => e.1 ≠ tn) }
     if idx ≥ registerAt then st := retryUpdate F st up
     cached := mergeTables cached up
     tables := (ts.map (fun (n, rs) => (n, rs.map (·.2)))) ++ tables.filter (fun e => !(ts.any (fun t => t.1 = e.1)))
